@@ -61,6 +61,55 @@ def run_stream(ctx, n, depth, oracle, entries=C.ALL_ENTRIES, shard=300, gen=None
     return failures
 
 
+def structural_phase(ctx, n, depth=4):
+    """structural correspondence of the code generator: the real generated code, parsed, must be the term the
+    model generator produces; a mismatch is followed by a focused behavioural search on that hint"""
+    from harness import coreir as IR
+    hm = [(IR.gen_hint(ctx.rng, ctx.rng.choice([1, 2, 3, depth])), ctx.rng.random() < 0.8) for _ in range(n)]
+    bad, errors, terms = C.structural(ctx, 'st', hm)
+    ctx.extra['structural_hints_compared'] = len(hm) - len(errors)
+    ctx.evaluations += len(hm)
+    failures = 0
+    for i in ([e[0] for e in errors] + bad)[:4]:
+        h, rnd = hm[i]
+        why = dict(errors).get(i, 'generated code differs from the model generator')
+        focus = []
+        for _ in range(25):
+            good = IR.gen_sat(ctx.rng, h, sizes=(0, 1, 2, 3))
+            for v in (good, IR.mutate(ctx.rng, good)):
+                if IR.valid_value(v):
+                    focus.append({'hint': h, 'value': v, 'draws': [0, 1, 2, 2 ** 32 - 1], 'is_random': rnd,
+                                  'entries': list(C.ALL_ENTRIES)})
+        found = False
+        obs = C.run_impl_cases(focus)
+        mism = C.evaluate(ctx, 'focus%d' % i, focus, obs) if i not in dict(errors) else []
+        for ci, res in enumerate(obs):
+            probs = oracle(focus[ci], res) + [(s, w, e) for (k, d, e0, e) in
+                                               [x for x in C.integrity_failures([focus[ci]], [res])]
+                                               for s, w in [({'clause': 'subject_disturbed'}, 'a check disturbed its subject')]]
+            if probs:
+                found = True
+                failures += 1
+                ctx.report(probs[0][0], {'case': focus[ci], 'observed': probs[0][2], 'after': 'structural mismatch',
+                                         'real_code_term': terms[i] if not isinstance(terms[i], dict) else terms[i]},
+                           probs[0][1])
+                break
+        if not found and mism:
+            ci, di = mism[0]
+            found = True
+            failures += 1
+            ctx.report({'clause': 'correspondence', 'hint_root': h[0]},
+                       {'case': focus[ci], 'draw': focus[ci]['draws'][di] if di >= 0 else None,
+                        'implementation': obs[ci], 'after': 'structural mismatch'},
+                       'model and beartype disagree on verdict or trace (found after a structural mismatch)')
+        if not found:
+            failures += 1
+            ctx.broken('corr/codegen_structural: ' + why,
+                       json.dumps({'hint': h, 'is_random': rnd, 'real_code_term': terms[i]})[:5000],
+                       shape={'broken': 'corr/codegen_structural', 'hint_root': h[0]})
+    return failures
+
+
 def oracle(case, res):
     """the property, directly on the implementation: sat -> accepted on every entry point and draw"""
     out = []
@@ -85,12 +134,14 @@ def run(ctx):
     regenerate(ctx)
     proof_err = None
     try:
-        ctx.prove(PROP)
+        ctx.prove(PROP, extra_targets=['theories/Core/Corr.vo', 'theories/Core/Cost.vo'])
     except CoqFailure as e:
         proof_err = e
     n = {'quick': 260, 'thorough': 6000}[ctx.tier]
     try:
-        failures = run_stream(ctx, n, 4, oracle)
+        failures = structural_phase(ctx, {'quick': 300, 'thorough': 6000}[ctx.tier])
+        if failures <= 12:
+            failures += run_stream(ctx, n, 4, oracle)
     except CoqFailure as e:
         if proof_err is None:
             ctx.broken('corr/core model evaluation', e.log)
